@@ -1,6 +1,6 @@
 use crate::akamai::{AkamaiFingerprint, Http2Priority, PseudoHeader, SettingId, SettingParameter};
 use crate::http2_parser::Http2Parser;
-use crate::http2_parser::{Http2Frame, Http2FrameType};
+use crate::http2_parser::{collect_header_blocks, Http2Frame, Http2FrameType};
 use crate::http_common::HttpHeader;
 use hpack_patched::Decoder;
 
@@ -201,8 +201,13 @@ fn extract_pseudo_header_order(frames: &[Http2Frame]) -> Vec<PseudoHeader> {
         .iter()
         .find(|f| f.frame_type == Http2FrameType::Headers && f.stream_id > 0);
 
-    if let Some(frame) = headers_frame {
-        if let Ok(headers) = decode_headers(&frame.payload) {
+    // The block starts after the pad/priority fields and may continue in CONTINUATION frames
+    let block = headers_frame
+        .and_then(|frame| collect_header_blocks(frame.stream_id, frames).ok())
+        .and_then(|blocks| blocks.into_iter().next());
+
+    if let Some(block) = block {
+        if let Ok(headers) = decode_headers(&block) {
             return headers
                 .iter()
                 .filter(|h| h.name.starts_with(':'))
